@@ -327,10 +327,12 @@ def stepLines : State → List Bytes → M (State × List Bytes)
       let (s2, o2) ← stepLines s1 rest
       pure (s2, o1 ++ o2)
 
-/-- feed a chunk of bytes (`evbuffer_read` + the `evbuffer_readln` loop) -/
+/-- feed a chunk of bytes (`evbuffer_read` + the `evbuffer_readln` loop).  The unconsumed
+    tail stays in the evbuffer; no handler can see it, so the lines are processed with the
+    field cleared and the tail is stored afterwards. -/
 def stepChunk (s : State) (chunk : Bytes) : M (State × List Bytes) :=
   let (lines, tail) := splitLines (s.inbuf ++ chunk)
-  stepLines { s with inbuf := tail } lines
+  (stepLines { s with inbuf := [] } lines).map fun r => ({ r.1 with inbuf := tail }, r.2)
 
 /-- install a configuration (first load or reload): deliver the sections to the modules
     whose section changed -/
